@@ -42,7 +42,7 @@ ASSUMPTIONS = [
     "Eigen block value types (Eigen::Matrix<double,b,b>) are driven in double on dyadic data (every operation exact) for the block adapter + block spmv only; solves with Eigen blocks are not driven",
 ]
 TRUSTED_BASE = ["harness/drv_adapters.cpp (ops block, cplx, cplx_solve), drv_blocks*.cpp, drv_blocks_spmv.cpp, drv_adapters_vt.cpp (Eigen build), drv_mixed.cpp (mixed-precision solves; float-block x double-vector kernels on dyadic data); ocaml/adapters/ops_adapters.ml, ocaml/blockspmv/ops_blockspmv.ml (second extracted model driver: Extract_blockspmv.v)"]
-VARIANTS = ["scalar", "block", "mbs", "direct", "as_block", "as_scalar", "hybrid"]
+VARIANTS = ["scalar", "block", "mbs", "mbs_bv", "direct", "as_block", "as_scalar", "hybrid"]
 
 
 def wrapper_cases(tier, seed):
@@ -56,11 +56,15 @@ def wrapper_cases(tier, seed):
         n = b * nb
         rows = gen.spd_block(r, b, nb, incomplete=(it % 3 != 0), kron=(it % 5 == 4))
         f = gen.rvec(r, n, nz=True)
-        vs = VARIANTS if b < 4 else ["scalar", "mbs", "direct", "hybrid"]
+        vs = VARIANTS if b < 4 else ["scalar", "mbs", "mbs_bv", "direct", "hybrid"]
         for v in vs:
             out.append(("w%d" % len(out), b, "bsolve %d %s %d %s %s" % (b, v, n + 2, fmt_crs(n, n, rows), fmt_vec(f)), "full", n, rows, f))
             if v != "direct":
                 out.append(("w%d" % len(out), b, "bsolve %d %s %d %s %s" % (b, v, r.choice([1, 2, 3]), fmt_crs(n, n, rows), fmt_vec(f)), "trunc", n, rows, f))
+            if v == "mbs_bv":
+                # right-hand side supported in the trailing part of the vector only (a norm taken over a truncated view would be zero)
+                ft = [F(0)] * (n - b) + [F(k + 1) for k in range(b)]
+                out.append(("w%d" % len(out), b, "bsolve %d %s %d %s %s" % (b, v, n + 2, fmt_crs(n, n, rows), fmt_vec(ft)), "full", n, rows, ft))
             if v == "mbs":
                 # the same matrix listed with its trailing rows in descending column order (leading rows sorted): make_block_solver
                 # has to see the same entries whatever the listing (seeded C13-5: a sortedness test that looks at the first n/b rows only)
